@@ -388,20 +388,6 @@ Definition rename (s : gfa) (old new : string) : res gfa :=
       end
   end.
 
-(* ---------- operations and observation ---------- *)
-Inductive op := OAdd (text : string) | ORm (name : string) | ORename (old new : string).
-
-Definition step (O : oracle) (s : gfa) (o : op) : res gfa :=
-  match o with
-  | OAdd t => add_line O s t
-  | ORm n => rm s n
-  | ORename a b => rename s a b
-  end.
-
-(* a failing operation leaves the state as it was *)
-Definition apply (O : oracle) (s : gfa) (o : op) : gfa * option exn :=
-  match step O s o with Ok s' => (s', None) | Err e => (s, Some e) end.
-
 Definition gl_text (l : gl) : string :=
   match g_rk l with
   | KCom => nth_s 0 (g_pos l)
@@ -410,5 +396,28 @@ Definition gl_text (l : gl) : string :=
   | k => join_with (String tab EmptyString)
            (rt_of k :: g_pos l ++ g_tags l ++ (if g_virtual l then ["co:Z:GFAPY_virtual_line"] else []))
   end.
+
+(* Gfa.rm(line): removal by instance, here by the written text of a line that is not a placeholder (the only way to
+   remove a line without identifier: fragments, unnamed edges, links) *)
+Definition rm_line (s : gfa) (t : string) : res gfa :=
+  match find (fun l => negb (g_virtual l) && String.eqb (gl_text l) t) (lines s) with
+  | Some x => disconnect s x
+  | None => Err (G ENotFound)
+  end.
+
+(* ---------- operations and observation ---------- *)
+Inductive op := OAdd (text : string) | ORm (name : string) | ORename (old new : string) | ORmLine (text : string).
+
+Definition step (O : oracle) (s : gfa) (o : op) : res gfa :=
+  match o with
+  | OAdd t => add_line O s t
+  | ORm n => rm s n
+  | ORename a b => rename s a b
+  | ORmLine t => rm_line s t
+  end.
+
+(* a failing operation leaves the state as it was *)
+Definition apply (O : oracle) (s : gfa) (o : op) : gfa * option exn :=
+  match step O s o with Ok s' => (s', None) | Err e => (s, Some e) end.
 
 Definition init_gfa (version : string) (vlevel : nat) : gfa := mkGfa [] 0 version vlevel.
